@@ -112,6 +112,8 @@ def _compare(ref, got, v, eps):
     dev = np.abs(K.back_rotate(got["states"], v) - ref["states"]).max(axis=(1, 2))
     if ref["fields"] is not None:
         dev = np.maximum(dev, np.abs(got["fields"] - ref["fields"]))
+    # relative to the size of the compared states (1 for physical states; DESIGN sec. 2.7)
+    dev = dev / max(1.0, float(np.abs(ref["states"]).max()), float(np.abs(got["states"]).max()))
     tdev = float(np.abs(got["times"] - ref["times"]).max())
     if tdev > 1e-12:
         return float(dev.max()), None, "times-differ"
@@ -125,7 +127,6 @@ def dyn_item(item):
     are contracted with them.  Returns a list of per-case records."""
     method, ev, mem, unique, eps, syskind, statekind, vnames = item
     d = len(ev)
-    one = np.eye(d, dtype=complex)
     recs = []
     if method == "pt":
         combos = [(s, st) for s in K.SYSTEMS for st in K.STATES]
@@ -152,10 +153,7 @@ def dyn_item(item):
                  "changed": 0.0, "nondiag": False, "retries": K.take_retries()} for c in combos]
     infl = {}
     for c in combos:
-        if method == "mf":
-            free = K.run_mf(np.zeros((d, d), dtype=complex), d, one, c[0], c[1], mem, unique, eps)["states"]
-        else:
-            free = K.run_free(d, c[0], c[1])
+        free = K.free_states(d, c[0], c[1])
         infl[c] = float(np.abs(ref[c]["states"] - free).max())
     for vname in vnames:
         v = K.UNITARIES[vname](d)
@@ -261,10 +259,10 @@ def run(tier, seed):
             else:
                 trivial += 1
     worst = max((m / tol(e) for e, m in maxdev.items()), default=0.0)
-    samples = []
-    for idx in (0, len(items) // 2, len(items) - 1):
-        r = res[idx][0]
-        samples.append({"key": r["key"], "dev": r["dev"], "bath_influence": r["infl"], "violation": r["cls"]})
+    flat = [r for recs in res for r in recs if r["infl"] > MIN_INFLUENCE and r["changed"] > 1e-3] or \
+        [r for recs in res for r in recs]
+    samples = [{"key": r["key"], "dev": r["dev"], "bath_influence": r["infl"], "violation": r["cls"]}
+               for r in (flat[0], flat[len(flat) // 2], flat[-1])]
     rep.coverage = {
         "evaluations": len(bcases) + n_eval,
         "distinct_nontrivial": len(bath_keys) + len(keys),
@@ -284,7 +282,7 @@ def run(tier, seed):
                 "(key: full parameter tuple)",
         "samples": samples,
         "exhaustive": True,
-        "max_dev": max(maxdev.values(), default=0.0),
+        "max_dev": maxdev.get(EPS, 0.0),
         "max_dev_by_epsrel": {str(e): m for e, m in sorted(maxdev.items())},
         "tolerance": tol(EPS),
         "tolerance_rule": f"{C_TOL} * epsrel * {K.N} steps",
